@@ -16,7 +16,7 @@
        Netlist._kill leaves of the equations: V -> 0 V, I -> 0 A, ICs -> 0)
        sum to the full response for any assignment of sources to groups.
    Arbitrary characteristic-0 field, arbitrary node / branch indices. *)
-Require Import LT.FieldSec LT.Circuit LT.LinearSys Gen.StampsGen Gen.C01model Gen.C03defs.
+Require Import LT.FieldSec LT.Circuit LT.LinearSys Gen.StampsGen Gen.C01model Gen.C03defs Gen.C03a Gen.C03b Gen.C03c Gen.C03d.
 Local Open Scope Z_scope.
 Local Open Scope bool_scope.
 
@@ -24,74 +24,40 @@ Section C03.
 Variable K : fld.
 Add Field KFs3 : (fth K).
 
-Ltac destruct_atom b :=
-  lazymatch b with
-  | andb ?x _ => destruct_atom x
-  | orb ?x _ => destruct_atom x
-  | negb ?x => destruct_atom x
-  | true => fail
-  | false => fail
-  | _ => let G := fresh "G" in destruct b eqn:G
-  end.
-Ltac case_guards :=
-  cbv beta iota;
-  repeat (match goal with
-          | |- context [if ?b then _ else _] =>
-              lazymatch b with Z.eqb _ _ => fail | true => fail | false => fail | _ => destruct_atom b end
-          end; cbn [andb orb negb]; cbv beta iota).
-Ltac prep c :=
-  destruct c as [kd ty n0 n1 n2 n3 m0 m1 bo be bc b1' b2' hic cv ha ts pr];
-  cbv [with_src kind typ p0 p1 p2 p3 c0 c1 bown bextra bctrl bL1 bL2 has_ic ctrl_is_vsrc has_arg1 tp_has_src par];
-  cbv beta iota.
-Ltac rows := cbv [lin vecv app um uo ur uc uv mname_eqb]; ring.
-Ltac close_rel :=
-  cbv [sres3 sres2 add_rel scale_rel mat_eq vec_add vec_scale];
-  first [ exact I
-        | repeat split; intros mm r; intros; destruct mm;
-          match goal with
-          | H : is_vec _ = _ |- _ => cbn [is_vec] in H; try discriminate H
-          end; rows ].
-Ltac solve_src :=
-  split; intros; match goal with cc : sctx K |- _ => prep cc end; case_guards; close_rel.
-
-Lemma src_linear_RC : src_linear (K:=K) stamp_RC. Proof. unfold stamp_RC. solve_src. Qed.
-Lemma src_linear_L : src_linear (K:=K) stamp_L. Proof. unfold stamp_L. solve_src. Qed.
-Lemma src_linear_V : src_linear (K:=K) stamp_V. Proof. unfold stamp_V. solve_src. Qed.
-Lemma src_linear_AM : src_linear (K:=K) stamp_AM. Proof. unfold stamp_AM. solve_src. Qed.
-Lemma src_linear_I : src_linear (K:=K) stamp_I. Proof. unfold stamp_I. solve_src. Qed.
-Lemma src_linear_VCVS : src_linear (K:=K) stamp_VCVS. Proof. unfold stamp_VCVS. solve_src. Qed.
-Lemma src_linear_VCCS : src_linear (K:=K) stamp_VCCS. Proof. unfold stamp_VCCS. solve_src. Qed.
-Lemma src_linear_CCCS : src_linear (K:=K) stamp_CCCS. Proof. unfold stamp_CCCS. solve_src. Qed.
-Lemma src_linear_CCVS : src_linear (K:=K) stamp_CCVS. Proof. unfold stamp_CCVS. solve_src. Qed.
-Lemma src_linear_K : src_linear (K:=K) stamp_K. Proof. unfold stamp_K. solve_src. Qed.
-Lemma src_linear_TF : src_linear (K:=K) stamp_TF. Proof. unfold stamp_TF. solve_src. Qed.
-Lemma src_linear_GY : src_linear (K:=K) stamp_GY. Proof. unfold stamp_GY. solve_src. Qed.
-Lemma src_linear_TL : src_linear (K:=K) stamp_TL. Proof. unfold stamp_TL. solve_src. Qed.
-Lemma src_linear_TPA : src_linear (K:=K) stamp_TPA. Proof. unfold stamp_TPA. solve_src. Qed.
-Lemma src_linear_TPB : src_linear (K:=K) stamp_TPB. Proof. unfold stamp_TPB, stamp_TPA. solve_src. Qed.
-Lemma src_linear_TPG : src_linear (K:=K) stamp_TPG. Proof. unfold stamp_TPG, stamp_TPA. solve_src. Qed.
-Lemma src_linear_TPH : src_linear (K:=K) stamp_TPH. Proof. unfold stamp_TPH, stamp_TPA. solve_src. Qed.
-Lemma src_linear_TPY : src_linear (K:=K) stamp_TPY. Proof. unfold stamp_TPY. solve_src. Qed.
-Lemma src_linear_TPZ : src_linear (K:=K) stamp_TPZ. Proof. unfold stamp_TPZ, stamp_TPY. solve_src. Qed.
-Lemma src_linear_TR : src_linear (K:=K) stamp_TR. Proof. unfold stamp_TR. solve_src. Qed.
-Lemma src_linear_SPpp : src_linear (K:=K) stamp_SPpp. Proof. unfold stamp_SPpp. solve_src. Qed.
-Lemma src_linear_SPpm : src_linear (K:=K) stamp_SPpm. Proof. unfold stamp_SPpm. solve_src. Qed.
-Lemma src_linear_SPppp : src_linear (K:=K) stamp_SPppp. Proof. unfold stamp_SPppp. solve_src. Qed.
-Lemma src_linear_SPpmm : src_linear (K:=K) stamp_SPpmm. Proof. unfold stamp_SPpmm. solve_src. Qed.
-Lemma src_linear_SPppm : src_linear (K:=K) stamp_SPppm. Proof. unfold stamp_SPppm. solve_src. Qed.
-Lemma src_linear_RV : src_linear (K:=K) stamp_RV. Proof. unfold stamp_RV. solve_src. Qed.
-Lemma src_linear_Dummy : src_linear (K:=K) stamp_Dummy. Proof. unfold stamp_Dummy. solve_src. Qed.
+(* additivity and homogeneity follow from the affine form *)
+Lemma src_affine_linear (st : sctx K -> sres K) : src_affine st -> src_linear st.
+Proof.
+  intros H. split.
+  - intros c a1 b1 a2 b2.
+    pose proof (H c a1 b1) as H1. pose proof (H c a2 b2) as H2. pose proof (H c (fadd a1 a2) (fadd b1 b2)) as H12.
+    destruct (st (with_src c f0 f0)) as [T0|], (st (with_src c f1 f0)) as [Ta|], (st (with_src c f0 f1)) as [Tb|];
+    destruct (st (with_src c a1 b1)) as [T1|]; try contradiction;
+    destruct (st (with_src c a2 b2)) as [T2|]; try contradiction;
+    destruct (st (with_src c (fadd a1 a2) (fadd b1 b2))) as [T12|]; try contradiction; cbn [sres3]; try exact I.
+    destruct H1 as [M1 V1], H2 as [M2 V2], H12 as [M12 V12]. repeat split.
+    + apply (mat_eq_trans K _ _ _ M1). apply mat_eq_sym. exact M12.
+    + apply (mat_eq_trans K _ _ _ M2). apply mat_eq_sym. exact M12.
+    + intros mm r Hm. rewrite (V12 mm r Hm), (V1 mm r Hm), (V2 mm r Hm). ring.
+  - intros c k a b.
+    pose proof (H c a b) as H1. pose proof (H c (fmul k a) (fmul k b)) as Hk.
+    destruct (st (with_src c f0 f0)) as [T0|], (st (with_src c f1 f0)) as [Ta|], (st (with_src c f0 f1)) as [Tb|];
+    destruct (st (with_src c a b)) as [T1|]; try contradiction;
+    destruct (st (with_src c (fmul k a) (fmul k b))) as [Tk|]; try contradiction; cbn [sres2]; try exact I.
+    destruct H1 as [M1 V1], Hk as [Mk Vk]. split.
+    + apply (mat_eq_trans K _ _ _ M1). apply mat_eq_sym. exact Mk.
+    + intros mm r Hm. rewrite (Vk mm r Hm), (V1 mm r Hm). ring.
+Qed.
 
 Theorem stamp_src_linear (cl : cname) : src_linear (K:=K) (stamp_of cl).
 Proof.
   destruct cl; cbn [stamp_of];
-  first [ exact src_linear_RC | exact src_linear_L | exact src_linear_V | exact src_linear_AM | exact src_linear_I
-        | exact src_linear_VCVS | exact src_linear_VCCS | exact src_linear_CCCS | exact src_linear_CCVS
-        | exact src_linear_K | exact src_linear_TF | exact src_linear_GY | exact src_linear_TL
-        | exact src_linear_TPA | exact src_linear_TPB | exact src_linear_TPG | exact src_linear_TPH
-        | exact src_linear_TPY | exact src_linear_TPZ | exact src_linear_TR
-        | exact src_linear_SPpp | exact src_linear_SPpm | exact src_linear_SPppp | exact src_linear_SPpmm
-        | exact src_linear_SPppm | exact src_linear_RV | exact src_linear_Dummy ].
+  first [ exact (src_affine_linear _ (src_affine_RC K)) | exact (src_affine_linear _ (src_affine_L K)) | exact (src_affine_linear _ (src_affine_V K)) | exact (src_affine_linear _ (src_affine_AM K)) | exact (src_affine_linear _ (src_affine_I K))
+        | exact (src_affine_linear _ (src_affine_VCVS K)) | exact (src_affine_linear _ (src_affine_VCCS K)) | exact (src_affine_linear _ (src_affine_CCCS K)) | exact (src_affine_linear _ (src_affine_CCVS K))
+        | exact (src_affine_linear _ (src_affine_K K)) | exact (src_affine_linear _ (src_affine_TF K)) | exact (src_affine_linear _ (src_affine_GY K)) | exact (src_affine_linear _ (src_affine_TL K))
+        | exact (src_affine_linear _ (src_affine_TPA K)) | exact (src_affine_linear _ (src_affine_TPB K)) | exact (src_affine_linear _ (src_affine_TPG K)) | exact (src_affine_linear _ (src_affine_TPH K))
+        | exact (src_affine_linear _ (src_affine_TPY K)) | exact (src_affine_linear _ (src_affine_TPZ K)) | exact (src_affine_linear _ (src_affine_TR K))
+        | exact (src_affine_linear _ (src_affine_SPpp K)) | exact (src_affine_linear _ (src_affine_SPpm K)) | exact (src_affine_linear _ (src_affine_SPppp K)) | exact (src_affine_linear _ (src_affine_SPpmm K))
+        | exact (src_affine_linear _ (src_affine_SPppm K)) | exact (src_affine_linear _ (src_affine_RV K)) | exact (src_affine_linear _ (src_affine_Dummy K)) ].
 Qed.
 
 (* (1) the statement asked for, per class: matrix independent of the sources,
